@@ -235,9 +235,14 @@ fn def_tokens(r: &Resolve, name: &str, id: TypeId, out: &mut Vec<String>) {
             opt_ty_tokens(r, &res.ok, out);
             opt_ty_tokens(r, &res.err, out);
         }
-        // type_list / type_map / type_fixed_length_list = type_alias(id, name, &Type::Id(id)):
-        // the printed type is the definition itself, by its own `name` in the type table
-        TypeDefKind::List(_) | TypeDefKind::Map(..) | TypeDefKind::FixedLengthList(..) => {
+        // type_list / type_map / type_fixed_length_list / type_future / type_stream
+        // = type_alias(id, name, &Type::Id(id)): the printed type is the definition itself, by its
+        // own `name` in the type table
+        TypeDefKind::List(_)
+        | TypeDefKind::Map(..)
+        | TypeDefKind::FixedLengthList(..)
+        | TypeDefKind::Future(_)
+        | TypeDefKind::Stream(_) => {
             out.push("self".into());
             ty_tokens(r, &Type::Id(id), out)
         }
@@ -245,8 +250,6 @@ fn def_tokens(r: &Resolve, name: &str, id: TypeId, out: &mut Vec<String>) {
             out.push("alias".into());
             ty_tokens(r, t, out)
         }
-        TypeDefKind::Future(_) => out.push("future".into()),
-        TypeDefKind::Stream(_) => out.push("stream".into()),
         TypeDefKind::Handle(_) => out.push("handle".into()),
         TypeDefKind::Unknown => out.push("unknown".into()),
     }
